@@ -1,4 +1,5 @@
 import SdJwt.Lemmas.KB
+import SdJwt.Lemmas.ObjectsL
 /-!
 # C09 — the holder's key-binding JWT commits to exactly the presentation it is attached to  (partial)
 
@@ -88,3 +89,24 @@ theorem C09_dropKb_recovers (jwt : String) (ds : List String) (kb : List Char) (
 /-- a compact JWT (base64url segments joined by `.`) contains no `~` — the hypothesis of
 `C09_dropKb_recovers` is met by every KB-JWT; here for a concrete one -/
 example : '~' ∉ "eyJhbGciOiJSUzI1NiJ9.eyJhdWQiOiJ4In0.c2ln".toList := by decide
+
+
+/-! ## The holder as an object: histories -/
+
+/-- **what `build` returns depends on the calls made so far only through the set of redacted paths
+and the last `key_binding`**: after any history of `redact` / `key_binding` / `build` calls the
+holder holds the token it was made from, every redacted path, and the parameters of the last
+`key_binding` call; earlier `build` calls leave no trace; and two histories that redact the same
+set of paths (in any order, with repetitions, before or after `key_binding`) keep the same
+disclosures — hence the key-binding JWT, whose `sd_hash` is computed by `build` over what is kept
+*then* (`C09_commit`), commits to the presentation it is attached to whatever the order of calls -/
+theorem C09_build_history (rt : Rt) (h : HolderObj) (ops ops' : List HolderOp) (nonce : String) (now : Int)
+    (hset : ∀ p, p ∈ h.redacted ++ redactsOf ops ↔ p ∈ h.redacted ++ redactsOf ops')
+    (hkb : (lastKb ops).orElse (fun _ => h.kb) = (lastKb ops').orElse (fun _ => h.kb)) :
+    (h.run ops) = h.run (ops.filter (fun o => !o.isBuild)) ∧
+    (h.run ops).observe rt nonce now = (h.run ops').observe rt nonce now := by
+  refine ⟨HolderObj.run_drop_builds ops h, ?_⟩
+  obtain ⟨a1, a2, a3⟩ := HolderObj.run_state ops h
+  obtain ⟨b1, b2, b3⟩ := HolderObj.run_state ops' h
+  simp only [HolderObj.observe, Holder.build, a1, b1, a2, b2, a3, b3, hkb,
+    keptDisclosures_set h.st.paths _ _ hset]
